@@ -1,6 +1,7 @@
 //! C11 — truncated files never yield wrong data. Every proper prefix of a valid file is
 //! opened with its own length; if it opens, every sample of the complete file is read: the
-//! result must be an error / absence, or identical in bytes and timing to the complete file's.
+//! result must be an error, or identical in bytes and timing to the complete file's (a sample
+//! silently reported as absent is neither).
 
 use crate::hostile::corpus;
 use crate::panicmon;
@@ -180,7 +181,14 @@ pub fn run(args: &Args) -> i32 {
                                     }
                                     equal += 1;
                                 }
-                                Ok(Ok(None)) | Ok(Err(_)) => {
+                                Ok(Ok(None)) => {
+                                    // "each sample read either fails with an error or is identical":
+                                    // a sample of the complete file that the prefix reports as
+                                    // ABSENT, without an error, is neither
+                                    rep.fail("C11", &id, "sample_reported_absent_without_error", json!({"file": seed.name, "cut": c, "of": n, "track": tid, "sample": sid}));
+                                    break 'tracks;
+                                }
+                                Ok(Err(_)) => {
                                     if ctl.budget_hit.get() {
                                         rep.fail("C11", &id, "hang_on_read", json!({"file": seed.name, "cut": c, "of": n, "track": tid, "sample": sid}));
                                         break 'tracks;
@@ -191,7 +199,7 @@ pub fn run(args: &Args) -> i32 {
                         }
                     }
                     rep.add("sample_reads_equal", equal);
-                    rep.add("sample_reads_failed_or_absent", failed);
+                    rep.add("sample_reads_failed_with_an_error", failed);
                     // a non-trivial case: the prefix opened and at least one sample was decided
                     let class = if equal > 0 && failed > 0 { "mixed" } else if equal > 0 { "all_equal" } else { "none_readable" };
                     rep.cover_nt(hash_str(&format!("{}|open|{}|{}", kind_of(&seed.name), class, if total_samples > 0 { c * 8 / n.max(1) } else { 9 })));
